@@ -119,8 +119,10 @@ def restrictKw (b : ClassDef) (kw : List (String × PyVal)) : List (String × Py
   kw.filter fun a => (Bridge.defOrder b).contains a.1
 
 /-- the two views of a class agree: every parameter the signature demands is a declared field and
-    no declared field is among `_constants` (the views can disagree in a diamond where one branch
-    declares a name as Constant and another as Field: `getattr` inside `StructMeta.__new__`) -/
+    no declared field is among `_constants`.  Until /repo f0f7ce1 the views could disagree in a diamond
+    where one branch declares a name as Constant and another as Field (`getattr` inside
+    `StructMeta.__new__`); now it is an invariant of every history (`reachable_bridge_wf`,
+    Lemmas/DefineSig.lean) -/
 def Bridge.wf (c : ClassDef) : Bool :=
   c.sig.req.all (fun n => (Bridge.defOrder c).contains n)
   && (Bridge.defOrder c).all (fun n => (lookup n c.constants).isNone)
